@@ -1,4 +1,5 @@
 import ShootVerif.Drive.Loop
 import ShootVerif.Drive.RestCall
+import ShootVerif.Drive.Rest
 open ShootVerif.Drive
-def main : IO Unit := runDriver [("rest-call", restCallCase)]
+def main : IO Unit := runDriver [("rest-call", restCallCase), ("rest-iface", restIfaceCase)]
